@@ -123,8 +123,20 @@ func TestVfC09Listeners(t *testing.T) {
 		listener := rapid.SampledFrom([]string{"udp", "udp", "udp", "tcp", "gnet", "tls", "quic", "http", "fasthttp", "https"}).Draw(t, "listener")
 		edns := rapid.SampledFrom([]int{-1, 0, 1, 300, 511, 512, 513, 600, 1232, 4096, 65535}).Draw(t, "edns")
 		qm := &vfkit.Msg{ID: uint16(seq), Bits: vfkit.BitRD, Q: []vfkit.Question{{Name: name, Type: 16, Class: 1}}}
+		optCompany := "alone"
 		if edns >= 0 {
 			qm.Ar = []vfkit.RR{{Type: 41, Class: uint16(edns), RData: []vfkit.RDPart{{Raw: []byte{}}}}}
+			// the OPT need not be the only or the last record of the query's additional section (a signed query has a
+			// record behind it): the size it advertises counts wherever it stands
+			other := vfkit.RR{Owner: vfkit.Name{[]byte("key")}, Type: 65281, Class: 255, RData: []vfkit.RDPart{{Raw: []byte{1, 2, 3, 4, 5, 6, 7, 8}}}}
+			switch optCompany = rapid.SampledFrom([]string{"alone", "alone", "alone", "record-behind", "record-in-front", "both"}).Draw(t, "optCompany"); optCompany {
+			case "record-behind":
+				qm.Ar = append(qm.Ar, other)
+			case "record-in-front":
+				qm.Ar = append([]vfkit.RR{other}, qm.Ar...)
+			case "both":
+				qm.Ar = append(append([]vfkit.RR{other}, qm.Ar...), other)
+			}
 		}
 		a := NewAsker(pip, "")
 		defer a.Close()
@@ -132,7 +144,7 @@ func TestVfC09Listeners(t *testing.T) {
 		if listener == "udp" && len(res.Resps) == 0 {
 			res = a.Ask(listener, EncodeMsg(qm), 5*time.Second, 0)
 		}
-		desc := fmt.Sprintf("listener=%s edns=%d upstream records an=%d ns=%d ar=%d of %d octets (+ last record of %d)", listener, edns, sc.nAn, sc.nNs, sc.nAr, sc.recLen, sc.lastLen)
+		desc := fmt.Sprintf("listener=%s edns=%d (OPT %s) upstream records an=%d ns=%d ar=%d of %d octets (+ last record of %d)", listener, edns, optCompany, sc.nAn, sc.nNs, sc.nAr, sc.recLen, sc.lastLen)
 		if res.Err != nil || len(res.Resps) != 1 {
 			t.Fatalf("no single response: err=%v n=%d status=%d; %s\n%s", res.Err, len(res.Resps), res.Status, desc, tail(p.Stderr(), 600))
 		}
